@@ -85,6 +85,18 @@ theorem linked_implies_accepted (pr : Params P α κ) (peaks : List (List P)) :
   intro t ht ab hab
   exact (((good_iff pr peaks t).1 ((link_spec pr peaks).2.2 t ht)).2 ab hab).2.2
 
+-- the window: a peak that disappears for one line is re-linked with `window = 2`, not with `window = 1`
+example : link (⟨fun _ x _ y => if x = y then some 0 else none, fun a b => decide (a > b), fun p _ => p,
+      fun a b => decide (a ≤ b), 2⟩ : Params Nat Nat Nat) [[5], [], [5]] = [[(0, 0), (2, 0)]] := by
+  decide +kernel
+example : link (⟨fun _ x _ y => if x = y then some 0 else none, fun a b => decide (a > b), fun p _ => p,
+      fun a b => decide (a ≤ b), 1⟩ : Params Nat Nat Nat) [[5], [], [5]] = [[(0, 0)], [(2, 0)]] := by
+  decide +kernel
+-- why the bound is `max window 1`: with `window = 0` the code still links to the very next line (once)
+example : link (⟨fun _ x _ y => if x = y then some 0 else none, fun a b => decide (a > b), fun p _ => p,
+      fun a b => decide (a ≤ b), 0⟩ : Params Nat Nat Nat) [[5], [5], [5]] = [[(0, 0), (1, 0)], [(2, 0)]] := by
+  decide +kernel
+
 -- non-vacuity of the three statements above: a two-frame input on which a link is made
 example :
     link (⟨fun _ x _ y => if x = y then some 0 else none, fun a b => decide (a > b), fun p _ => p,
@@ -119,6 +131,11 @@ theorem link_stops_without_candidate (pr : Params P α κ) (tipF : Nat) (tip : P
     simp only [List.mem_map, Prod.mk.injEq, Prod.exists]
     exact ⟨j', p', (mem_candidates frP frU j' p').2 ⟨hp, hu⟩, rfl, rfl, rfl⟩)
 
+-- the hypotheses are those of a strict weak order; `>` on ℕ (and on the finite doubles) is one
+example : (∀ a b : Nat, decide (a > b) = true → decide (b > a) = false) ∧
+    (∀ a b c : Nat, decide (a > b) = false → decide (b > c) = false → decide (a > c) = false) := by
+  refine ⟨?_, ?_⟩ <;> intros <;> simp_all <;> omega
+
 example : appendNext (⟨fun _ x _ y => if y < x + 3 then some (10 - (y - x)) else none, fun a b => decide (a > b),
     fun p _ => p, fun a b => decide (a ≤ b), 1⟩ : Params Nat Nat Nat) 0 5 1 [9, 7, 6, 6, 6] [true, true, false, true, true]
     = some (3, 6, 9) := by decide
@@ -136,6 +153,10 @@ theorem start_order (pr : Params P α κ) (peaks : List (List P))
   rw [List.pairwise_reverse]
   exact linkFrom_order pr peaks trans total _ _ [] 0 peaks.length List.range_eq_range'
     List.Pairwise.nil (by simp)
+
+example : (∀ a b c : Int, decide (a ≤ b) = true → decide (b ≤ c) = true → decide (a ≤ c) = true) ∧
+    (∀ a b : Int, decide (a ≤ b) = true ∨ decide (b ≤ a) = true) := by
+  refine ⟨?_, ?_⟩ <;> intros <;> simp_all <;> omega
 
 -- three peaks on one line, amplitudes 3, 9, 5 (keys are the negated amplitudes): brightest first
 example : link (⟨fun _ _ _ _ => (none : Option Nat), fun a b => decide (a > b), fun p _ => -p,
@@ -206,6 +227,8 @@ theorem cone_units (v sigma D cutoff ps lt x c dl : ℝ) (hps : 0 < ps) (hlt : 0
     rw [e3, div_lt_div_iff_of_pos_right hps]
   · unfold diffusionPixels; positivity
 
+example := cone_units 1 1 1 2 (1/2) (1/4) 3 4 2 (by norm_num) (by norm_num) (by norm_num) (by norm_num)
+
 /-! ## Rectangle -/
 
 /-- the mask keeps exactly the detections inside the pixel rectangle, in their order -/
@@ -270,6 +293,10 @@ theorem rect_physical (lt ps s0 x0 s1 x1 : Rat) (hlt : 0 < lt) (hps : 0 < ps) (h
   refine ⟨by linarith, by linarith, by linarith, by linarith⟩
 
 example : toPixelRect (1/2) (1/10) (5/4) (3/10) 5 2 = ⟨2, 3, 10, 20⟩ := by decide +kernel
+-- the lower edge is only kept up to one line time: line 2 starts at 1.0 s < 1.25 s, yet it is inside the pixel rectangle
+example : (5/4 : Rat) - 1/2 < 1/2 * (2 : Int) ∧ ¬ ((5/4 : Rat) ≤ 1/2 * (2 : Int)) :=
+  ⟨(rect_physical (1/2) (1/10) (5/4) (3/10) 5 2 (by norm_num) (by norm_num) (by norm_num) 2 3
+      (by decide +kernel) (by decide +kernel) (by decide +kernel) (by decide +kernel)).1, by norm_num⟩
 
 /-! ## Photon counts -/
 
